@@ -48,3 +48,63 @@ fn xyb_inverse_one_pixel_total() {
     let out = xyb_to_linear_rgb(vec![p]);
     assert!(out.len() == 1);
 }
+
+// C04 (BOUNDED: structure of the whole forward path against the STATEMENT's definition on the 8^3 grid {-1,-0.6,-0.25,0,0.3,0.5,1,4}^3,
+// one-pixel image; fully symbolic pixels made the f64 oracle intractable, > 25 min):
+// cbrtf is replaced (kani::stub) by a cheap smooth function g, and the result must equal the statement's formula with the
+// same g in place of the cube root, computed in f64 from libjxl's digits:
+//     X=(L-M)/2, Y=(L+M)/2, B=S,  (L,M,S) = g(max(0, A*rgb+b)) - g(b).
+// This decides where the clamp, the bias and the X/Y combination sit (for all pixels, symbolic) without paying for the bit-level
+// cube root (6 symbolic cbrtf: > 25 min); the cube root itself is C18's subject. g is smooth, so there is no singular point and the
+// tolerance is a plain rounding budget: mix error <= 3e-6 (f32 fma chain + f32 constants), |g'| <= 4.3, g evaluated in f32.
+fn glue_g(x: f32) -> f32 { x * x * 0.5 + x * 0.25 + 0.125 }
+fn glue_g64(x: f64) -> f64 { x * x * 0.5 + x * 0.25 + 0.125 }
+#[kani::proof]
+#[kani::unwind(5)]
+#[kani::stub(cbrtf, glue_g)]
+fn xyb_definition_structure_stubbed_cbrt() {
+    const T: [f32; 8] = [-1.0, -0.6, -0.25, 0.0, 0.3, 0.5, 1.0, 4.0];
+    let k: [u8; 3] = [kani::any(), kani::any(), kani::any()];
+    kani::assume(k[0] < 8 && k[1] < 8 && k[2] < 8);
+    let p: [f32; 3] = [T[k[0] as usize], T[k[1] as usize], T[k[2] as usize]];
+    kani::cover!(p[0] < 0.0 && p[1] < 0.0 && p[2] < 0.0);
+    kani::cover!(p[0] > 0.0 && p[2] < -0.5);
+    let out = linear_rgb_to_xyb(vec![p]);
+    assert!(out.len() == 1);
+    const A: [[f64; 3]; 3] = [[0.30, 0.622, 0.078], [0.23, 0.692, 0.078],
+                              [0.24342268924547819, 0.20476744424496821, 0.55180986650955360]];
+    const B: f64 = 0.0037930732552754493;
+    let mut l = [0f64; 3];
+    let mut i = 0;
+    while i < 3 {
+        let mix = A[i][0] * p[0] as f64 + A[i][1] * p[1] as f64 + A[i][2] * p[2] as f64 + B;
+        let mix = if mix < 0.0 { 0.0 } else { mix };
+        l[i] = glue_g64(mix) - glue_g64(B);
+        i += 1;
+    }
+    let want = [(l[0] - l[1]) / 2.0, (l[0] + l[1]) / 2.0, l[2]];
+    let tol = 5e-5;
+    assert!((out[0][0] as f64 - want[0]).abs() <= tol);
+    assert!((out[0][1] as f64 - want[1]).abs() <= tol);
+    assert!((out[0][2] as f64 - want[2]).abs() <= tol);
+}
+
+// (measured: the bit-for-bit glue query of xyb_glue_one_pixel does not finish in 20 min even with cbrtf stubbed - equality of two
+//  structurally equal fma circuits over symbolic f32 is hard for SAT - so it is not registered anywhere.)
+
+// C05 (BOUNDED: two fixed pixels, real cbrtf): forward then inverse returns the pixel within 5e-5 and keeps the length.
+// Backs the exact-real round-trip lemma of U-xyb with the real f32 code, and still decides these two pixels when the
+// inverse loop has been restructured (the Verus unit attaches its invariants to the loop statements).
+#[kani::proof]
+#[kani::unwind(5)]
+fn xyb_round_trip_fixed_2px() {
+    let src: [[f32; 3]; 2] = [[0.25, 0.5, 0.75], [1.0, 0.0, 0.1]];
+    let back = xyb_to_linear_rgb(linear_rgb_to_xyb(src.to_vec()));
+    assert!(back.len() == 2);
+    let mut i = 0;
+    while i < 2 {
+        let mut c = 0;
+        while c < 3 { assert!((back[i][c] - src[i][c]).abs() <= 5e-5); c += 1; }
+        i += 1;
+    }
+}
